@@ -6,9 +6,9 @@ fuzz_target!(|data: &[u8]| {
     common::init();
     let Some(spec) = lsmv::props::spec("C03") else { return };
     let mut g = spec.gen.clone();
-    g.max_ops = 120;
-    let strat = lsmv::gen::case(&g);
-    let Some(case) = common::decode(&strat, data) else { return };
+    g.max_ops = 80;
+    g.big_pool_pct = 0; // big pools cost seconds per case under ASan; the proptest tiers cover them
+    let case = lsmv::bytecase::decode_case(&g, data);
     if let Err(f) = lsmv::runner::run_case(&spec, &case) {
         common::report("C03", serde_json::to_value(&case).unwrap_or_default(), &f.what);
     }
